@@ -10,8 +10,8 @@
   value that could be `None` or too short, `comment_lines[-1]`, `line_indent <= part_indent`
   with `part_indent` None, `current_part.description` with `current_part` None, a `None`
   annotation name used as a key) is an explicit `Except PyErr` step of the model, so "never
-  raises" is a statement about reachability (C11_ann_total, C11_block_total).  `validate()` is the
-  one place where the unchanged tree DOES raise (C11_validate_len_counterexample / _partial).
+  raises" is a statement about reachability (C11_ann_total, C11_block_total); the `len(options)` step
+  of `validate()` is total as well (C11_validate_len; it was not before fix 065a201).
   Line numbers at block level: C11_line_step (what is logged while a line is read names that line)
   and C11_line_partial (every diagnostic names a line of the comment).  The caret clause at
   block level and the diagnostics of `validate()` are covered by the model correspondence (every
@@ -79,8 +79,8 @@ theorem C11_line_step (h : Hdr) (st st' : BSt) (ln : Nat) (line : Str) (hs : lin
     ∃ d, st'.diags = st.diags ++ d ∧ ∀ x ∈ d, x.line = ln :=
   lineStep_grows h st ln line st' hs
 
-/-- Line numbers, whole block (the state machine, i.e. everything but `validate()`, whose diagnostics on
-    the unchanged tree can lack a position altogether — recorded finding): when the opening token stands
+/-- Line numbers, whole block (the state machine, i.e. everything but `validate()`, whose diagnostics
+    can lack a position altogether — recorded finding): when the opening token stands
     alone on its line, every diagnostic names a line of the comment itself, between its first line `lineno`
     and its last line. -/
 theorem C11_line_partial (comment : Str) (lineno : Nat) (b : Option BlockM) (d : List BDiag)
@@ -169,42 +169,26 @@ theorem C11_fields_caret (po vd : Bool) (col : Nat) (line fields : Str) (init : 
           · simp at hd
     · cases h; intro d hd; have := hc d hd; omega
 
-/-! ### `validate()`: `len(options)` — FALSE at full strength on the unchanged tree
+/-! ### `validate()`: `len(options)`
 
 `GtkDocAnnotatable._validate_annotation` starts with `n_options = len(options)`.  It is
 called for every annotation name in the part's `valid_annotations`; the options come from
-`_parse_annotation`, i.e. from `classStep`. -/
+`_parse_annotation`, i.e. from `classStep`.  (Before fix 065a201 `copy-func` / `free-func` were validated
+but not in ALL_ANNOTATIONS, so their options could be `None` and `len(None)` raised.) -/
 
-/-- full statement: for every annotation name some part class validates, whatever option
-    text follows, `len(options)` is defined -/
-def C11_validate_len_full : Prop :=
-  ∀ n ∈ Gen.validBlock ++ Gen.validParameter ++ Gen.validTag, ∀ (col : Nat) (opts : Option Str),
-    ∃ k, pyLen (classStep col n.toList opts).1.2 = .ok k
-
-/-- witness: `(copy-func)` on an identifier.  The name is validated (`validBlock`) but is not
-    in ALL_ANNOTATIONS, so it gets the options of an unknown annotation: `None`. -/
-theorem C11_validate_len_counterexample :
-    "copy-func" ∈ Gen.validBlock ∧ inTable Gen.allAnnotations (str "copy-func") = false ∧
-    (parseAnnotation 0 (str "copy-func")).toOption = some (some (str "copy-func", .none), []) ∧
-    (classStep 0 (str "copy-func") none).1.2 = .none ∧ pyLen .none = .error .typeError := by
-  refine ⟨by decide, by decide +kernel, by decide +kernel, by decide +kernel, rfl⟩
-
-theorem C11_validate_len_full_false : ¬ C11_validate_len_full := by
-  intro h
-  obtain ⟨k, hk⟩ := h "copy-func" (by decide) 0 none
-  have h3 := C11_validate_len_counterexample.2.2.2.1
-  rw [show ("copy-func" : String).toList = str "copy-func" from rfl, h3] at hk
-  cases hk
-
-/-- exactly two validated names are affected -/
+/-- every validated annotation name is a known annotation: none is left that gets the options of an
+    unknown annotation (`None`) -/
 theorem C11_validate_len_affected :
-    (Gen.validBlock ++ Gen.validParameter ++ Gen.validTag).filter (fun n => !Gen.allAnnotations.contains n)
-      = ["copy-func", "free-func"] := by
+    (Gen.validBlock ++ Gen.validParameter ++ Gen.validTag).filter (fun n => !Gen.allAnnotations.contains n) = [] := by
   decide +kernel
 
-/-- the proved part: for every name in ALL_ANNOTATIONS (list or dict class) `len(options)` is
-    defined for every option text -/
-theorem C11_validate_len_partial (col : Nat) (n : Str) (opts : Option Str)
+theorem C11_validated_known :
+    ∀ n ∈ Gen.validBlock ++ Gen.validParameter ++ Gen.validTag,
+      isListAnn n.toList = true ∨ isDictAnn n.toList = true := by
+  decide +kernel
+
+/-- for every name in ALL_ANNOTATIONS (list or dict class) `len(options)` is defined for every option text -/
+theorem C11_validate_len_known (col : Nat) (n : Str) (opts : Option Str)
     (h : isListAnn n = true ∨ isDictAnn n = true) : ∃ k, pyLen (classStep col n opts).1.2 = .ok k := by
   unfold classStep
   simp only []
@@ -225,6 +209,13 @@ theorem C11_validate_len_partial (col : Nat) (n : Str) (opts : Option Str)
     | some o =>
       simp only []
       split <;> exact ⟨_, rfl⟩
+
+/-- Totality of the `len(options)` step of `validate()`: for every annotation name some part class
+    validates, whatever option text follows the name, `len(options)` is defined — `len(None)` is not
+    reachable. -/
+theorem C11_validate_len (n : String) (hn : n ∈ Gen.validBlock ++ Gen.validParameter ++ Gen.validTag) (col : Nat)
+    (opts : Option Str) : ∃ k, pyLen (classStep col n.toList opts).1.2 = .ok k :=
+  C11_validate_len_known col n.toList opts (C11_validated_known n hn)
 
 /-! ### the message log -/
 
